@@ -64,7 +64,7 @@ def run(ck):
         for l in out.splitlines():
             if l.startswith('MISMATCH'):
                 f = dict(x.split('=', 1) for x in l.split()[1:])
-                ck.violation('C14:filter_decision:uid=%s:list=%s' % (f['uid'], f['list'][:60]), {'line': l})
+                ck.violation('C14:filter_decision:uid=%s:list=%s%s' % (f['uid'], f['list'][:60], '' if f.get('errno_before') == '0' else ':ambient_errno=' + f.get('errno_before', '?')), {'line': l})
         samples.append({'uid': u, 'lists': n, 'alphabet': ni})
     # whole path: all lists of <= 2 items, both filters
     def whole(u):
@@ -80,7 +80,7 @@ def run(ck):
         for L in lists:
             for flt in ('only_uid', 'exclude_uid'):
                 cfg = ('[snoopy]\nmessage_format = M\noutput = file:log\nfilter_chain = %s:%s\n' % (flt, ','.join(L))).encode()
-                lines += ['cfg ' + H.hx(cfg), 'call execve %s [h61] [] -1 2' % H.hx(b'/x')]
+                lines += ['cfg ' + H.hx(cfg), 'errno %d' % (34 if (len(plan) % 2) else 0), 'call execve %s [h61] [] -1 2' % H.hx(b'/x')]   # ambient errno alternates 0 / ERANGE
                 member = any(int(x) == u for x in L)
                 plan.append((flt, L, member if flt == 'only_uid' else not member))
         r = H.run_script(v['h_exec'], w, '\n'.join(lines), env_extra={'VERIF_HEXMAX': '16'}, timeout=600)
